@@ -635,3 +635,109 @@ pub fn replay_history(spec: &FileSpec, ops: &[Op], prop: &str) -> Result<String,
     }
     Ok(log)
 }
+
+/// All histories of length <= depth over a small alphabet, WITHOUT state deduplication (so the
+/// verdict does not depend on the fingerprint exposing every field: a change that adds hidden
+/// cursor state is still explored along every short history). Returns (histories, operations).
+pub fn enumerate_histories(
+    name: &str,
+    spec: &FileSpec,
+    entries: &[vlib::fmt::Entry],
+    bytes: &[u8],
+    depth: usize,
+    prop: &str,
+    acc: &mut Acc,
+) -> (u64, u64) {
+    let model = Model::new(entries.to_vec());
+    let n = model.len();
+    let mut ops = vec![Op::First, Op::Last, Op::Next, Op::Prev, Op::Reset];
+    let mut picks: Vec<usize> = vec![0, n / 2, n.saturating_sub(1)];
+    picks.dedup();
+    for i in picks {
+        if i < n {
+            let mut gap = model.entries[i].0.clone();
+            gap.push(0);
+            ops.push(Op::Ge(hex(&gap)));
+            ops.push(Op::Le(hex(&model.entries[i].0)));
+        }
+    }
+    let src = CountSrc::new(bytes);
+    let Ok(Ok(reader)) = guarded(|| Reader::new(src)) else { return (0, 0) };
+    let fresh: Cur = reader.into_cursor().expect("into_cursor cannot fail");
+    let mut histories = 0u64;
+    let mut operations = 0u64;
+    let mut violations = 0usize;
+    // depth-first over operation indices; the cursor at each depth is kept so a step costs one op
+    let mut stack: Vec<(Cur, Pos, usize)> = vec![(fresh, Pos::Fresh, 0)];
+    let mut path: Vec<usize> = Vec::new();
+    while let Some((_, _, next_op)) = stack.last() {
+        let next_op = *next_op;
+        if next_op >= ops.len() || stack.len() > depth {
+            stack.pop();
+            path.pop();
+            continue;
+        }
+        stack.last_mut().unwrap().2 += 1;
+        let (cur, pos, _) = stack.last().unwrap();
+        let op = &ops[next_op];
+        let mut c = cur.clone();
+        let got = apply(&mut c, op);
+        operations += 1;
+        let (want, mut npos) = model_step(&model, *pos, op);
+        let unspecified = want.is_none() && !matches!(op, Op::Reset);
+        if unspecified {
+            if let Ok(Some(Some((k, v)))) = &got {
+                if let Some(i) = model.exact(k) {
+                    if &model.entries[i].1 == v {
+                        npos = Pos::At(i);
+                    }
+                }
+            }
+        }
+        let mut bad: Option<String> = None;
+        match &got {
+            Err(e) if !unspecified => bad = Some(format!("{} -> {e}", op.brief())),
+            Ok(Some(g)) => {
+                if let Some(w) = &want {
+                    let w_obs: Obs = w.map(|i| (model.entries[i].0.clone(), model.entries[i].1.clone()));
+                    if &w_obs != g {
+                        bad = Some(format!("{} returned {} but the model says {}", op.brief(), obs_brief(g), obs_brief(&w_obs)));
+                    }
+                }
+            }
+            _ => {}
+        }
+        if bad.is_none() {
+            if let Pos::At(i) = npos {
+                let cur_now = own(c.current());
+                let want_cur = Some((model.entries[i].0.clone(), model.entries[i].1.clone()));
+                if got.is_ok() && cur_now != want_cur {
+                    bad = Some(format!("after {} current() = {} but the last returned entry is {}", op.brief(), obs_brief(&cur_now), obs_brief(&want_cur)));
+                }
+            }
+        }
+        path.push(next_op);
+        histories += 1;
+        if let Some(msg) = bad {
+            violations += 1;
+            let hist: Vec<Op> = path.iter().map(|i| ops[*i].clone()).collect();
+            let pstr = hist.iter().map(Op::brief).collect::<Vec<_>>().join(", ");
+            acc.violation(Violation {
+                signature: format!("file={name};enum;path={}", pstr.replace(' ', "")),
+                summary: format!("{prop}: file {name}: history [{pstr}]: {msg}"),
+                case: json!({"kind": "cursor_history", "file": spec, "ops": hist}),
+            });
+            path.pop();
+            if violations >= 10 {
+                break;
+            }
+            continue;
+        }
+        if got.is_err() {
+            path.pop();
+            continue;
+        }
+        stack.push((c, npos, 0));
+    }
+    (histories, operations)
+}
